@@ -31,10 +31,10 @@ type C22Scn struct {
 }
 
 type c22Write struct {
-	off    uint64
-	data   []byte
-	must   bool // acknowledged FILE_SYNC/DATA_SYNC before the crash, or covered by an acknowledged COMMIT
-	acked  bool
+	off   uint64
+	data  []byte
+	must  bool // acknowledged FILE_SYNC/DATA_SYNC before the crash, or covered by an acknowledged COMMIT
+	acked bool
 }
 
 // c22Run executes the history with a crash after the k-th backend call (k<0: no crash).
@@ -305,8 +305,8 @@ func shrinkC22(scAny any) []any {
 func init() {
 	Register(&Prop{ID: "C22", Level: "fault_enumeration",
 		Rule: "one case = one sampled history of 1-6 requests (WRITE with each stable_how at offsets around page boundaries and lengths 1..5000 incl. above the transfer size, COMMIT, CREATE) on a file of 0/10/5000 initial bytes; the history is first run crash-free to count its B backend operations, then EVERY crash point k=0..B+1 (crash right after the k-th backend call returns; clean = all unsynced data lost, or torn = an arbitrary page subset and old-or-new size survive, drawn per history) is executed in its own simulated world: crash, restart of a new server instance on the durable state after a restart gap, read-back; oracle per byte: a byte acknowledged with committed=FILE_SYNC/DATA_SYNC or covered by an acknowledged COMMIT (and not superseded) holds that value; other touched bytes hold the old or one of the written values; the write verifier is constant within an instance and differs after the restart; non-trivial = the history makes at least one backend call; distinct by event digest over all crash points",
-		Gen: genC22, New: func() any { return &C22Scn{} }, Run: runC22, Shrink: shrinkC22,
-		Real:    seqReal,
-		Stubbed: []string{"backend with durability model (simfs: namespace ops durable on return, data/size volatile until Sync or O_SYNC; crash discards volatile state; old views fail after the crash)", "kernel TCP (simnet)", "clock", "scheduler"},
+		Gen:  genC22, New: func() any { return &C22Scn{} }, Run: runC22, Shrink: shrinkC22,
+		Real:        seqReal,
+		Stubbed:     []string{"backend with durability model (simfs: namespace ops durable on return, data/size volatile until Sync or O_SYNC; crash discards volatile state; old views fail after the crash)", "kernel TCP (simnet)", "clock", "scheduler"},
 		Assumptions: []string{"crash points are enumerated exhaustively per sampled history (between backend operations); histories themselves are sampled", "the durability contract of the backend is the simfs model: metadata operations are durable when they return"}})
 }
